@@ -172,6 +172,22 @@ func genHistory(r *gen.Rand) (int, int, []Op) {
 	n := r.Range(5, 18)
 	var ops []Op
 	paused := 0
+	// "deep layout" profile (about a third of the histories): first several rounds of writes + flush with the clock
+	// advancing, so that the reorganisations that follow find three or more ordered files and several out-of-order
+	// files (late rows of every round) instead of one or two
+	if r.Chance(7, 20) {
+		rounds := r.Range(3, 5)
+		for k := 0; k < rounds; k++ {
+			for w := r.Range(1, 2); w > 0; w-- {
+				ops = append(ops, Op{K: "W", Rows: g.batch()})
+			}
+			ops = append(ops, Op{K: "F"})
+			if g.now < NT-1 {
+				g.now++
+			}
+		}
+		n = len(ops) + r.Range(4, 10)
+	}
 	for len(ops) < n || paused > 0 {
 		if paused > 0 {
 			paused--
